@@ -1,9 +1,10 @@
 #!/bin/bash
 # usage: try_seed.sh <seed dir containing patch.diff> <Cxx> [more Cxx...]
 # applies the patch to /repo, runs the checks, reverts.
+R=${BEZIER_REPO:-/repo}
 set -u
 SEED=$1; shift
-cd /repo || exit 2
+cd "$R" || exit 2
 git diff --quiet || { echo "/repo has uncommitted changes"; exit 2; }
 git apply "$SEED/patch.diff" || { echo "patch does not apply"; exit 2; }
 for pid in "$@"; do
